@@ -89,6 +89,53 @@ def builtin_facts(pp):
     return facts
 
 
+PINNED = Path(__file__).with_name("c18_pinned.json")
+
+
+def load_pinned():
+    """the facts for which the obligations in Props/C18.lean were last proved (committed next to this file)"""
+    if not PINNED.exists():
+        return None
+    return {n: [tuple(x) for x in lv] for n, lv in json.loads(PINNED.read_text()).items()}
+
+
+def _ast_of(driver, kind, p, fl):
+    if kind == "Literal":
+        return "lit:" + p
+    return driver.run([sx(Sym("reast"), bool(fl & re.I), bool(fl & re.M), bool(fl & re.S), p)])[0]
+
+
+def precheck_facts(ctx, facts):
+    """A failing `decide +kernel` obligation makes Lean spend minutes diagnosing it, so the obligations are
+    pre-evaluated with the compiled driver (same `Regex.parse`): a live pattern that no longer parses to the AST of the
+    pinned pattern is recorded as a broken obligation right away and the pinned text stays in the generated file; every
+    fact that is written to the generated file is still checked by the Lean kernel in the build that follows."""
+    pinned = load_pinned()
+    if pinned is None:
+        return facts
+    try:
+        drv = ctx.driver
+    except common.HarnessError:
+        return facts
+    out = {}
+    for n, lv in facts.items():
+        pv = pinned.get(n)
+        if pv is None or lv == pv:
+            out[n] = lv
+            continue
+        same = len(lv) == len(pv) and all(
+            a[0] == b[0] and a[2] == b[2] and _ast_of(drv, a[0], a[1], a[2]) == _ast_of(drv, b[0], b[1], b[2])
+            for a, b in zip(lv, pv))
+        if same:
+            out[n] = lv
+        else:
+            out[n] = pv
+            changed = [(a, b) for a, b in zip(lv, pv) if a != b][:2] or [(lv[:3], pv[:3])]
+            ctx.obligation(f"PP.C18.{n} generated fact (pattern of the live package parses to the pinned AST)", False,
+                           f"live {changed[0][0]!r} vs pinned {changed[0][1]!r}")
+    return out
+
+
 def lean_str(s: str) -> str:
     out = ['"']
     for ch in s:
@@ -302,7 +349,7 @@ EXTRA_PATTERNS = [
 
 def regex_correspondence(ctx, facts):
     rng = ctx.subrng("regex")
-    per = ctx.budget(250, 2500)
+    per = ctx.budget(600, 2500)
     pats = []
     for n, lv in facts.items():
         for kind, p, fl in lv:
@@ -698,7 +745,7 @@ NEAR = {
 def builtin_oracle(ctx, pp, facts, boost=1):
     rng = ctx.subrng("builtin-oracle")
     table = _builtin_table()
-    per = ctx.budget(300, 3000) * boost
+    per = ctx.budget(1000, 4000) * boost
     n = 0
     outcomes = {}
     samples = []
@@ -809,7 +856,7 @@ def ipv6_oracle(ctx, pp):
                            signature="ipv6_embedded_ipv4_forms")
     n = 0
     outcomes = {}
-    for s in fixed + [gen_ipv6(rng) for _ in range(ctx.budget(1500, 15000))]:
+    for s in fixed + [gen_ipv6(rng) for _ in range(ctx.budget(5000, 20000))]:
         if embedded_v4_other_than_ffff(s) or "%" in s:
             continue  # region of the registered finding / zone ids (not part of the documented syntax)
         n += 1
@@ -918,7 +965,7 @@ def quoted_oracle(ctx, pp):
     rng = ctx.subrng("quoted")
     n = skipped = 0
     outcomes = {}
-    cfgs = qs_configs(rng, ctx.budget(400, 3000))
+    cfgs = qs_configs(rng, ctx.budget(1200, 4000))
     for cfg in cfgs:
         E = cfg["end_quote_char"] or cfg["quote_char"]
         alpha = list("ab c\\\\tn0x41u\t\n\r'\"") + [E, E[0], cfg["quote_char"], cfg["esc_char"] or "z",
@@ -1003,7 +1050,7 @@ def quoted_builtins_oracle(ctx, pp):
     n = 0
     outcomes = {}
     alpha = ['"', "'", "\\", "a", "b", " ", "x", "4", "1", "\n", '""', "''", '\\"', "\\'", "\\x41", "\\x", "\\\\", "\\n"]
-    for _ in range(ctx.budget(3000, 30000)):
+    for _ in range(ctx.budget(10000, 40000)):
         kind = rng.choice(["dbl", "sgl", "any"])
         q = rng.choice({"dbl": ['"'], "sgl": ["'"], "any": ['"', "'"]}[kind])
         body = "".join(rng.choice(alpha) for _ in range(rng.randint(0, 6)))
@@ -1108,7 +1155,7 @@ def nested_oracle(ctx, pp):
     n = 0
     outcomes = {}
     pairs = [("(", ")"), ("[", "]"), ("{", "}"), ("<<", ">>"), ("{{", "}}"), ("begin", "end")]
-    for _ in range(ctx.budget(1500, 15000)):
+    for _ in range(ctx.budget(5000, 20000)):
         op, cl = rng.choice(pairs)
         t = gen_tree(rng, 3)
         s = render_tree(rng, t, op, cl)
@@ -1164,7 +1211,7 @@ def delimited_oracle(ctx, pp):
         if d not in (None, "skip"):
             ctx.fail_input("DelimitedList(max=1, allow_trailing_delim=True) matches nothing", {"delimited": w}, d[0], d[1],
                            signature="delimited_max1_trailing")
-    for _ in range(ctx.budget(2500, 25000)):
+    for _ in range(ctx.budget(8000, 30000)):
         delim = rng.choice([",", ";", "::", "|"])
         mn = rng.choice([None, None, 1, 2, 3])
         mx = rng.choice([None, None, 1, 2, 3, 4])
@@ -1230,7 +1277,7 @@ def counted_oracle(ctx, pp):
     rng = ctx.subrng("counted")
     n = 0
     outcomes = {}
-    for _ in range(ctx.budget(1500, 15000)):
+    for _ in range(ctx.budget(5000, 20000)):
         use = rng.random() < 0.3
         k = rng.randint(0, 5)
         real_k = k if rng.random() < 0.6 else max(0, k + rng.choice([-1, 1, 2]))
@@ -1254,7 +1301,10 @@ def counted_oracle(ctx, pp):
 def run(ctx):
     pp = common.import_pyparsing()
     facts = builtin_facts(pp)
-    ok = ctx.proof_leg("PPProofs.Props.C18", THEOREMS, generated={GEN_REL: gen_patterns_lean(facts)})
+    n_broken = len(ctx.broken)
+    gen_facts = precheck_facts(ctx, facts)
+    ok = ctx.proof_leg("PPProofs.Props.C18", THEOREMS, generated={GEN_REL: gen_patterns_lean(gen_facts)})
+    ok = ok and len(ctx.broken) == n_broken
     ctx.notes["generated_facts"] = {n: lv[:4] for n, lv in facts.items()}
     ctx.rule.append(
         "regex-engine-vs-re: every Regex/Word/QuotedString pattern of the built-ins (+13 extra patterns covering the "
